@@ -598,7 +598,9 @@ class C11(Spec):
             return True
         if r["task"].startswith("_utils:"):
             return True       # incl. S: nothing but SchemaError may come out of check_schema
-        return ob["kind"] in ("F", "P", "L") and "/F/structure" not in ob["name"]
+        # S too: "anything check_schema accepts can then be used to validate any instance without crashing" - the exception
+        # edges of the keyword functions are refuted under wf_d, which is generated from the BUNDLED metaschema file
+        return ob["kind"] in ("F", "P", "L", "S") and "/F/structure" not in ob["name"]
 
     def failure_kinds(self):
         return ("F", "S")
